@@ -5,10 +5,11 @@ from jsl import Codec, Unsupported, sx, sxl
 
 
 class StepRecord:
-    __slots__ = ("codec", "pre", "trs", "tm", "out", "result", "pre_obj", "action")
+    __slots__ = ("codec", "pre", "trs", "tm", "out", "result", "pre_obj", "action", "micro", "final")
 
-    def __init__(self, codec, pre, trs, tm, out, result, pre_obj, action):
+    def __init__(self, codec, pre, trs, tm, out, result, pre_obj, action, micro=None, final=None):
         self.codec, self.pre, self.trs, self.tm, self.out = codec, pre, trs, tm, out
+        self.micro, self.final = micro, final
         self.result, self.pre_obj, self.action = result, pre_obj, action
 
 
@@ -21,6 +22,7 @@ class Tracer:
         self.keep_objects = keep_objects
         self.unsupported = 0
         self.early_of = {}
+        self.want_pre = False
 
     def codec_for(self, instance, cfg):
         c = self.codecs.get(id(instance))
@@ -34,10 +36,13 @@ class Tracer:
         pre = codec.state(state)
         trs = codec.transitions(action.transitions)
         tm = codec.tm(action.time_machine)
-        out, r = jsl.impl_step(codec, config, state, action)
+        rec = jsl.recorder()
+        rec.want_pre = self.want_pre
+        out, r = jsl.impl_step(codec, config, state, action, rec)
+        final = codec.state(r.state) if (r is not None and r.success) else None
         self.records.append(StepRecord(codec, pre, trs, tm, out, r if self.keep_objects else None,
                                        state if self.keep_objects else None,
-                                       action if self.keep_objects else None))
+                                       action if self.keep_objects else None, list(rec.micro), final))
         if r is None:
             if out == "(fuel)":
                 raise jsl.StepBudgetExceeded()
@@ -85,3 +90,34 @@ def replay(records, driver, stats=None):
         if m != r.out:
             bad.append((k, r, m))
     return bad
+
+
+CLAUSES = ["placement", "loc", "mach_hold", "agv_hold", "claims", "capacity", "flags", "feasible", "no_overdue",
+           "past", "busy_op", "proc_inner", "output_done", "outages", "outage_nonneg", "agv_phase"]
+
+
+def monitor_states(records, driver, which=None, stats=None):
+    """Evaluate the extracted clause vector on every implementation state of the records (pre-state,
+    every micro-state, final state). Returns list of (record index, position, clause name, state sx)."""
+    viol = []
+    seen = set()
+    for k, r in enumerate(records):
+        driver.set_codec(r.codec)
+        states = [("pre", r.pre)] + [("micro%d" % n, m[2]) for n, m in enumerate(r.micro or [])]
+        if r.final is not None:
+            states.append(("final", r.final))
+        for pos, s in states:
+            h = hash(s)
+            if (id(r.codec), h) in seen:
+                continue
+            seen.add((id(r.codec), h))
+            v = driver.ask("M " + s)
+            if stats is not None:
+                stats["states"] = stats.get("states", 0) + 1
+            bits = v.strip("()").split()
+            if len(bits) != len(CLAUSES):
+                raise RuntimeError("monitor output: " + v)
+            for name, b in zip(CLAUSES, bits):
+                if b != "1" and (which is None or name in which):
+                    viol.append((k, pos, name, s))
+    return viol
